@@ -8,6 +8,7 @@ import (
 	_ "cuelang.org/go/internal/verif/h/c03"
 	_ "cuelang.org/go/internal/verif/h/c04"
 	_ "cuelang.org/go/internal/verif/h/c05"
+	_ "cuelang.org/go/internal/verif/h/c06"
 	_ "cuelang.org/go/internal/verif/h/c09"
 )
 
